@@ -367,6 +367,10 @@ def run(ctx):
             fh.write(json.dumps({"id": i, "argv": ["jq"] + fl + [filt], "stdin": data.decode("utf-8"),
                                  "stdout": out.decode("utf-8", "replace"), "stderr": err[:300], "rc": ev["rc"]}) + "\n")
     n = vlib.check_trace(ctx, "Trace_JsonPrint.tla", "Trace.cfg", tp, sig_of, group_key=lambda e: True, timeout=1800)
+    bs = ctx.cov.get("binding_selftest")
+    if isinstance(bs, dict) and isinstance(bs.get("corrupted_event"), dict):
+        ce = bs["corrupted_event"]
+        bs["corrupted_event"] = {"id": ce.get("id"), "o": ce.get("o"), "r": ce.get("r"), "documents": len(ce.get("in", []))}
     if suspects:
         # events whose signature is listed as a known finding: validated on their own (TLC must still be
         # the one that rejects them; vlib drops what it rejects and re-validates the rest)
